@@ -77,6 +77,9 @@ func canonType(t types.Type) string {
 	case *types.Chan:
 		return "chan " + canonType(u.Elem())
 	case *types.Basic:
+		if u.Kind() < types.UntypedBool && u.Kind() != types.Invalid {
+			return types.Typ[u.Kind()].Name() // byte -> uint8, rune -> int32
+		}
 		return u.Name()
 	case *types.Struct:
 		s := "struct{"
